@@ -171,6 +171,7 @@ type Machine struct {
 	notExistErrs map[*Value]bool
 	httpSt       *httpState
 	stdioMark    int
+	fileInfos    map[*Opaque]*fsEntry
 }
 
 func (m *Machine) addPC(t *Term) {
